@@ -115,7 +115,10 @@ Section Inv.
       p_PA : forall a v g, In (M2Answer a v g) (pd x y) ->
                a = t_committed (S x) && negb (t_offerer (S x)) && opt_is (t_partner (S x)) y /\
                (a = true -> exists gg, g = Some gg /\ gg <> 0);
-      p_L : t_committed (S x) = true -> t_partner (S x) = Some y -> link x y
+      p_L : t_committed (S x) = true -> t_partner (S x) = Some y -> link x y;
+      (* an offerer that has got the answer of its partner: the partner has handled the offers *)
+      p_Ans : t_offerer (S x) = true -> t_partner (S x) = Some y -> 4 <= t_state (S x) ->
+              (t_cycle (S y) = t_cycle (S x) /\ 3 <= t_state (S y)) \/ t_cycle (S y) = t_cycle (S x) + 1
     }.
 
     Definition idle_skel (s : m2st) : Prop := skel s = (0, 0, 0, [], [], [], None, false, false, 0).
